@@ -55,7 +55,7 @@ def case_strategy(draw):
         zeros = [[0, draw(st.integers(1, 20))], [n - draw(st.integers(1, 20)), 20]]
     elif zp == 'all':
         zeros = [[0, n]]
-    og = draw(st.sampled_from(['wider', 'shift', 'same', 'narrower', 'coarser', 'wider', 'disjoint', 'finer', 'offset']))
+    og = draw(st.sampled_from(['wider', 'shift', 'same', 'narrower', 'coarser', 'wider', 'disjoint', 'finer', 'offset', 'offset']))
     return dict(nexp=nexp, n=n, c0=c0, c1=c1, fam=fam, fp=[draw(uf) for _ in range(4)], zeros=zeros, zpattern=zp,
                 offsets=[0.0] + [0.5 * (1 + draw(uf)) * 0.98 + 0.01 for _ in range(nexp - 1)],
                 og=og, frac=draw(st.sampled_from([0.5, 0.25, 0.01, 0.99, 0.73])), left=draw(st.integers(1, 40)), right=draw(st.integers(1, 40)),
